@@ -42,10 +42,10 @@ def add_duplicates(rng, case):
     pool = [s["arg"] for s in (case["pre"] or []) + case["batch"] if "arg" in s and "/" not in s["arg"]]
     if not pool:
         return
-    for _ in range(rng.choice([1, 1, 2])):
+    for n_ in range(rng.choice([1, 1, 2])):
         a = rng.choice(pool)
         how = rng.random()
-        d = "dup%d/" % rng.randrange(3)
+        d = "dup%d+/" % n_     # one directory per duplicate: two sources never share a path on the host
         if a.endswith(".bas") and how < 0.4:
             b = d + a + ",a"
         elif how < 0.7:
